@@ -1,6 +1,7 @@
 import Brax.Spec.MjKinematics
 import Brax.Model.ScanLevels
 import Brax.Model.ScanTypes
+import Brax.Model.KinCoded
 /-! line protocol driver for C01/C08: `fwd <sys> <q> <qd>`, `mjfwd <sys> <q>`, `w2j <sys> <x> <xd>` -/
 open Brax
 
@@ -16,7 +17,12 @@ def stepF (line : String) : String :=
     match Rd.run (readSysState Float) ts with
     | some (s, q, qd) =>
       if !s.WF || q.length != s.nq || qd.length != s.nv then "bad-args" else
-      joinToks ((Kin.forward s q qd).flatMap fun x => x.1.toks ++ x.2.toks)
+      -- the function including the scan code (scan.link_types / scan.tree as coded) is what is compared with
+      -- the implementation; it must also agree with the recursion-level model the theorems are about
+      let dz : DofP Float := ⟨⟨⟨0, 0, 0⟩, ⟨0, 0, 0⟩⟩, 0, 0, 0, none, none, 0⟩
+      let coded := joinToks ((Kin.forwardCoded s q qd 0 dz).flatMap fun x => x.1.toks ++ x.2.toks)
+      let plain := joinToks ((Kin.forward s q qd).flatMap fun x => x.1.toks ++ x.2.toks)
+      if coded != plain then "bad-coded-differs-from-recursion-model" else coded
     | none => "bad-args"
   | "mjfwd" :: ts =>
     match Rd.run (readSysState Float) ts with
